@@ -1,5 +1,6 @@
 import Rip.Driver.C20
 import Rip.Driver.C06
+import Rip.Driver.C09
 import Rip.Driver.C10
 import Rip.Driver.C12
 import Rip.Driver.C15
@@ -24,6 +25,7 @@ def dispatch (line : String) : String :=
     | "c18" => Rip.Driver.C18.handle rest
     | "c20" => Rip.Driver.C20.handle rest
     | "c06" => Rip.Driver.C06.handle rest
+    | "c09" => Rip.Driver.C09.handle rest
     | "c10" => Rip.Driver.C10.handle rest
     | "c12" => Rip.Driver.C12.handle rest
     | "c13" => Rip.Driver.C13.handle rest
